@@ -56,15 +56,22 @@ func genC11(d *Draw) Case {
 	defs := &Definitions{}
 	g := &Graph{ID: "P1", Executable: true}
 	defs.Procs = []*Graph{g}
-	refs := []string{"sA", "sB", "mA", "mB", "mA#op1"} // "m#op": a message definition with an operation reference
+	refs := []string{"sA", "sB", "mA", "mB", "mA#op1", "eA", "xA"} // "m#op": a message definition with an operation reference; e: escalation, x: error
 	kindOf := func(r string) string {
-		if strings.HasPrefix(r, "m") {
+		switch {
+		case strings.HasPrefix(r, "m"):
 			return "message"
+		case strings.HasPrefix(r, "e"):
+			return "escalation"
+		case strings.HasPrefix(r, "x"):
+			return "error"
 		}
 		return "signal"
 	}
 	defs.Signals = []string{"sA", "sB", "sX"}
 	defs.Messages = []string{"mA", "mB", "mX"}
+	defs.Escalations = []string{"eA", "eX"}
+	defs.Errors = []string{"xA", "xX"}
 	mkTask := func(id string) *Node {
 		return g.addNode(&Node{ID: id, Kind: "task", Results: []string{"r_" + id}})
 	}
@@ -165,7 +172,7 @@ func genC11(d *Draw) Case {
 	g.index()
 	// event history: matching, non-matching, repeated
 	ne := d.N(9)
-	pool := append(append([]string{}, used...), "sX", "mX", refs[d.N(len(refs))])
+	pool := append(append([]string{}, used...), "sX", "mX", refs[d.N(len(refs))], []string{"eX", "xX", "eA", "xA"}[d.N(4)])
 	// message events with, without and with another operation than the listeners' definitions
 	for _, u := range used {
 		if strings.HasPrefix(u, "m") {
@@ -203,6 +210,11 @@ func genC11(d *Draw) Case {
 	c.Prog = &Program{Defs: defs, Vars: vars, Tags: tags, Desc: fmt.Sprintf("catches=%v shape=%d pre-task=%v events=%v racy=%v", used, shape, pre, evd, racy)}
 	c.Picks = drawPicks(d, 40)
 	c.Meta = map[string]int{"racy": b2i(racy), "nevents": len(c.Events), "shape": shape, "final": b2i(final), "parallel": b2i(shape == 1 && nc > 1), "startDef": b2i(startDef), "sameFlow": b2i(sameFlow), "sameFlowK": sameFlowK}
+	for _, u := range used {
+		if strings.HasPrefix(u, "e") || strings.HasPrefix(u, "x") {
+			c.Meta["esc"] = 1
+		}
+	}
 	nestEvents(d, c)
 	return c
 }
@@ -215,7 +227,12 @@ func nestEvents(d *Draw, c *ProcCase) {
 		return
 	}
 	lv := 1 + d.N(2)
-	if nestBody(c.Prog.Defs, c.Prog.Defs.Procs[0], lv) {
+	g0 := c.Prog.Defs.Procs[0]
+	endID := "End"
+	if g0.Node("End") == nil && g0.Node("EN") != nil {
+		endID = "EN" // (C10: the end event of the normal path; the exception paths' end events move inside)
+	}
+	if nestBodyBetween(c.Prog.Defs, g0, "Start", endID, lv) {
 		c.Prog.Tags = append(c.Prog.Tags, "events-in-subprocess")
 		c.Prog.Desc += fmt.Sprintf(" [body nested in %d sub-process level(s)]", lv)
 		if c.Meta != nil {
@@ -336,6 +353,7 @@ func checkC11(cc Case, r *simrt.Result) *Outcome {
 	probe(o, "burst-behind-slow-subscriber", c.Meta["burst"] == 1)
 	probe(o, "more-events-than-inbox", calls > 3)
 	probe(o, "untaken-branch-listener", c.Meta["shape"] == 2)
+	probe(o, "escalation-or-error-definitions", c.Meta["esc"] == 1)
 	probe(o, "several-tokens-wait-at-one-catch-event-over-the-same-flow", c.Meta["sameFlow"] == 1)
 	probe(o, "start-event-with-a-definition-of-its-own", c.Meta["startDef"] == 1)
 	o.Sample = map[string]any{"program": c.Prog.Desc, "buf": c.Buf, "hold": c.Hold}
@@ -1014,6 +1032,40 @@ func genC10(d *Draw) Case {
 	c.Prog = &Program{Defs: defs, Vars: map[string]any{}, Tags: tl, Desc: fmt.Sprintf("host H (sub-process=%v) with %d boundary event(s), pre-task=%v two-tokens=%v loop=%v, events %v burst=%v", subHost, nb, pre, two, loop, evd, burst)}
 	c.Picks = drawPicks(d, 32)
 	c.Meta = map[string]int{"two": b2i(two), "nb": nb, "subhost": b2i(subHost), "loop": b2i(loop), "burst": b2i(burst)}
+	// the kind of each boundary event's definition: signal, message, escalation or error (the reference keeps its name)
+	for i := 1; i <= nb; i++ {
+		kind := []string{"signal", "signal", "message", "escalation", "error"}[d.N(5)]
+		if kind == "signal" {
+			continue
+		}
+		ref := fmt.Sprintf("sB%d", i)
+		for _, n := range g.allNodes() {
+			if n.Kind == "boundary" && len(n.Events) == 1 && n.Events[0].Ref == ref {
+				n.Events[0].Kind = kind
+			}
+		}
+		for k := range c.Events {
+			if c.Events[k].Ref == ref {
+				c.Events[k].Kind = kind
+			}
+		}
+		var sig []string
+		for _, sname := range defs.Signals {
+			if sname != ref {
+				sig = append(sig, sname)
+			}
+		}
+		defs.Signals = sig
+		switch kind {
+		case "message":
+			defs.Messages = append(defs.Messages, ref)
+		case "escalation":
+			defs.Escalations = append(defs.Escalations, ref)
+		case "error":
+			defs.Errors = append(defs.Errors, ref)
+		}
+		c.Meta["kinds"] = 1
+	}
 	nestEvents(d, c)
 	if !subHost && !two && d.N(3) == 2 {
 		// the host's answer carries an error: without handler or with a skip decision the token leaves the host
@@ -1037,6 +1089,7 @@ func genC10(d *Draw) Case {
 				script = append(script, AnswerSpec{Mode: "retry", Retries: n})
 			}
 			desc = fmt.Sprintf("error, retry(%d), then success", n)
+			c.Meta["hostretry"] = 1
 		}
 		c.Scripts = map[string][]AnswerSpec{"H": script}
 		c.Prog.Desc += " [host answered: " + desc + "]"
@@ -1098,7 +1151,13 @@ func checkC10(cc Case, r *simrt.Result) *Outcome {
 	if partial {
 		o.Tags = append(o.Tags, "event-after-one-of-two-tokens-left")
 	}
-	for _, b := range g.Nodes {
+	if c.Meta["hostretry"] == 1 {
+		o.Tags = append(o.Tags, "host-answered-retry")
+	}
+	if c.Meta["nested"] > 0 {
+		o.Tags = append(o.Tags, "body-in-sub-process")
+	}
+	for _, b := range g.allNodes() {
 		if b.Kind != "boundary" {
 			continue
 		}
@@ -1119,6 +1178,7 @@ func checkC10(cc Case, r *simrt.Result) *Outcome {
 	probe(o, "interrupting-fired", intrFired)
 	probe(o, "two-tokens-in-host", c.Meta["two"] == 1)
 	probe(o, "sub-process-host", c.Meta["subhost"] == 1)
+	probe(o, "message-escalation-or-error-boundary-events", c.Meta["kinds"] == 1)
 	probe(o, "event-nodes-inside-sub-process", c.Meta["nested"] > 0)
 	probe(o, "host-answered-with-error", c.Meta["hosterr"] == 1)
 	probe(o, "host-re-entered-through-loop", c.Meta["loop"] == 1)
